@@ -12,7 +12,7 @@ import gram
 from impl import trees, treeoutput, treeinput, treeanalysis, quiet, clone
 
 ID = "C03"
-MODULE = ['TT.Props.C03', 'TT.Props.C03Own', 'TT.Props.C03Options', 'TT.Props.C03Run', 'TT.Props.C03Run2', 'TT.Props.C03Total', 'TT.Props.C03Chain', 'TT.Props.C18Src', 'TT.Props.C03Words', 'TT.Props.C03Cmd', 'TT.Props.C18Dir', 'TT.Props.C03Conv19', 'TT.Props.C03Xml']
+MODULE = ['TT.Props.C03', 'TT.Props.C03Own', 'TT.Props.C03Options', 'TT.Props.C03Run', 'TT.Props.C03Run2', 'TT.Props.C03Total', 'TT.Props.C03Chain', 'TT.Props.C18Src', 'TT.Props.C03Words', 'TT.Props.C03Cmd', 'TT.Props.C18Dir', 'TT.Props.C03Conv19', 'TT.Props.C03Xml', 'TT.Props.C03Mid19']
 RULE = ("`treetools transform` on generated treebanks (1..4 sentences) for all 4x5 (source, destination) format pairs, "
         "A->B->A chains, own-format round trips, encodings utf-8 / latin-1 / utf-16 on either side, gzip sources, "
         "directory sources, export v3/v4. The destination is decoded by the specification decoder and compared with "
